@@ -470,11 +470,11 @@ func newPlainCtx(wl *wlPlain) *plainCtx {
 		}
 	}
 	sort.Strings(c.labels)
-	if len(c.labels) > 14 {
+	if len(c.labels) > 12 {
 		// bound the all-pairs queries; keep a deterministic spread
-		step := float64(len(c.labels)) / 14
+		step := float64(len(c.labels)) / 12
 		var sel []string
-		for i := 0; i < 14; i++ {
+		for i := 0; i < 12; i++ {
 			sel = append(sel, c.labels[int(float64(i)*step)])
 		}
 		c.labels = sel
